@@ -47,3 +47,18 @@ package xpush
 //@ func (*socket).RecvMsg
 //@   modifies none
 //@   ensures result0 == nil && result1 == protocol.ErrProtoOp
+// ---- generated deadline contracts (tools/gen_deadline_contracts.py) ----
+//@ func (*socket).SendMsg
+//@   before select#1 assert s.bestEffort ==> tq == closedQ
+//@   before select#1 assert !s.bestEffort && s.sendExpire > 0 ==> timer_d(tq) == s.sendExpire
+//@   before select#1 assert !s.bestEffort && s.sendExpire <= 0 ==> tq == nilQ
+//@   ensures sel("select#1") == 3 && !s.bestEffort ==> result == protocol.ErrSendTimeout
+//@   ensures sel("select#1") == 3 && s.bestEffort ==> isnil(result)
+//@
+// ---- end generated deadline contracts ----
+//@
+//@ func (*socket).SendMsg
+//@   before select#1 assert !(s.failNoPeers && len(s.pipes) == 0) && pq == s.noPeerQ
+//@
+//@ func (*socket).RemovePipe
+//@   before call:close#2 assert s.failNoPeers && len(s.pipes) == 0 && held(s.Mutex)
